@@ -179,7 +179,7 @@ SpdGens ==
 
 ReflVecs(n) ==
   CASE n = 1 -> {<<0>>}
-    [] n = 2 -> {<<1, 1>>, <<1, -2>>, <<0, 0>>}
+    [] n = 2 -> IF Level = 1 THEN {<<1, -2>>, <<0, 0>>} ELSE {<<1, 1>>, <<1, -2>>, <<0, 0>>}
     [] n = 3 -> IF Level = 1 THEN {<<1, 1, 1>>, <<1, -2, 0>>} ELSE {<<1, 1, 1>>, <<1, -2, 0>>, <<0, 1, 1>>, <<2, 1, -2>>}
     [] n = 4 -> IF Level = 1 THEN {<<1, 1, 1, 1>>} ELSE {<<1, 1, 1, 1>>, <<1, 0, -1, 2>>, <<0, 1, 1, 0>>}
 EigVals == IF Level = 1 THEN {-2, 0, 1, 2} ELSE {-2, -1, 0, 1, 2, 3}
@@ -244,7 +244,7 @@ HessGens == {G("hess", n, n, <<t>>, <<>>, <<>>, 0) : n \in Sizes \ {1}, t \in 0.
 
 DenseGens ==
   {G("dense", m, n, <<t>>, <<zr, zc>>, <<dup>>, 0) :
-     n \in Sizes, m \in Sizes, t \in 0..(IF Level = 1 THEN 2 ELSE 7),
+     n \in Sizes, m \in Sizes, t \in 0..(IF Level = 1 THEN 1 ELSE 7),
      zr \in 0..N, zc \in 0..N, dup \in {0, 1}}
 
 SvdVals == IF Level = 1 THEN {-2, 0, 1, 3} ELSE {-2, -1, 0, 1, 2, 3}
@@ -374,7 +374,7 @@ Focus(g_, rt) ==
     [] rt = "ldl_forcepd" -> g_.cls \in {"spd", "symrefl", "tridiag"}
     [] rt \in {"msqrt", "msqrtinv"} -> g_.cls \in {"symrefl", "tridiag"} \/ (g_.cls = "spd" /\ g_.k <= 1)
     [] rt = "gramschmidt" -> g_.cls \in {"dense", "svdrefl", "bidiag", "triang"}
-    [] rt \in {"bidiag", "svd"} -> g_.cls \in {"dense", "svdrefl", "bidiag", "symrefl", "triang", "compan", "hess"}
+    [] rt \in {"bidiag", "svd"} -> g_.cls \in {"dense", "svdrefl", "bidiag"} \/ (Level = 2 /\ g_.cls \in {"symrefl", "triang", "compan", "hess"})
     [] rt \in {"tridiag", "qr_sym", "eigen_sym"} -> g_.cls \in {"symrefl", "tridiag", "spd"} \/ (g_.cls \in {"triang", "dense"} /\ Symmetric(g_))
     [] rt \in {"hessenberg", "qr"} -> g_.cls \in {"compan", "triang", "hess", "dense", "symrefl", "bidiag", "tridiag"}
     [] rt = "eigen" -> g_.cls \in {"compan", "triang", "symrefl", "bidiag", "tridiag"}
@@ -414,7 +414,7 @@ KnowledgeOK ==
   /\ g.cls = "symrefl" =>                                   \* A H = (v'v)^2 H diag(d)  (numerators)
        LET H == Refl(g.p)  s == ReflScale(g.p)
        IN /\ MMul(H, H) = MScale(s * s, Ident(g.n))
-          /\ MMul(Num(g), H) = MScale(s * s, MMul(H, DiagM(g.q)))
+          /\ g.k = 0 => MMul(Num(g), H) = MScale(s * s, MMul(H, DiagM(g.q)))       \* (k > 0: the same identity, scaled)
           /\ IsSym(Num(g))
   /\ g.cls = "compan" =>
        /\ \A i \in 1..Len(g.q) : PolyAt(PolyOf(g), g.q[i]) = 0
@@ -425,7 +425,7 @@ KnowledgeOK ==
   /\ g.cls = "svdrefl" =>
        LET s == ReflScale(g.q) * ReflScale(g.r) IN SumSq(Num(g)) = s * s * Dot(g.p, g.p)
   /\ Symmetric(g) => IsSym(Num(g))
-  /\ (Square(g) /\ SPD(g) /\ g.n <= 3) => \A kk \in 1..g.n : Det(Mat(kk, kk, LAMBDA i, j : Num(g)[i][j])) > 0   \* Sylvester
+  /\ (Square(g) /\ SPD(g) /\ g.n <= 3 /\ g.k = 0 /\ g.cls # "symrefl") => \A kk \in 1..g.n : Det(Mat(kk, kk, LAMBDA i, j : Num(g)[i][j])) > 0   \* Sylvester
   /\ Rows(Num(g)) = g.m /\ Cols(Num(g)) = g.n
 
 Emit == PrintT(ToJson(Case(g)))
